@@ -208,7 +208,7 @@ func (w *ChunkWriter) WriteChunk(kv *KV) error {
 		return errors.New("service info key-value pair must not be null")
 	}
 	// If the key hasn't changed, keep streaming data
-	if kv.Key == w.prevKey {
+	if w.w != nil && kv.Key == w.prevKey {
 		_, err := w.w.Write(kv.Val)
 		return err
 	}
